@@ -457,6 +457,10 @@ SAFE_FUNCS = {
 SAFE_ATTRS = {
     "split", "rsplit", "partition", "rpartition", "startswith", "endswith", "strip", "lstrip", "rstrip", "lower", "upper",
     "match", "fullmatch", "search", "group", "groups", "update", "hexdigest", "digest", "get", "join", "replace", "find",
+    # str/bytes predicates and total (non-raising) transformations
+    "isdigit", "isalnum", "isalpha", "isascii", "isdecimal", "isnumeric", "isspace", "islower", "isupper", "istitle", "isidentifier", "isprintable",
+    "title", "capitalize", "casefold", "swapcase", "zfill", "ljust", "rjust", "center", "splitlines", "removeprefix", "removesuffix", "expandtabs", "count", "rfind",
+    "hex", "keys", "values", "items", "copy",
     "warning", "debug", "info", "error",  # logging with %-args is formatted lazily and never propagates
 }
 ARITY_FIXED = {"partition": 3, "rpartition": 3}
